@@ -174,7 +174,7 @@ def rule_A8(ctx):
     for f in m.funcs.values():
         for x in own_walk(f.node):
             if isinstance(x, ast.Call) and ast.unparse(x.func).endswith('bitarray.bitarray') and any(k.arg == 'buffer' for k in x.keywords):
-                if f.key != 'bitstore:BitStore.frombuffer':
+                if f.key not in sharing_ctors(m):
                     r.fail(f.key, x, 'bitarray(buffer=...) shares memory with its argument; only BitStore.frombuffer (read-only mmap) may do that', loc=f.loc(x))
                 else:
                     r.ok(x)
@@ -193,6 +193,26 @@ def rule_A8(ctx):
     return r
 
 
+def sharing_ctors(m):
+    """Constructors of BitStore that wrap a caller's buffer without copying: classmethods that build `bitarray(buffer=...)` into
+    a newly allocated store and set its immutable flag unconditionally.  frombuffer is one; a variant of it written next to it
+    (frombuffer_truncated, say) is held to the same rules - who may call it, with what, and what its result counts as."""
+    out = {}
+    bs = m.classes.get('BitStore')
+    if bs is None:
+        return out
+    for name, f in bs.methods.items():
+        if not any(isinstance(x, ast.Call) and ast.unparse(x.func).endswith('bitarray.bitarray') and any(k.arg == 'buffer' for k in x.keywords)
+                   for x in own_walk(f.node)):
+            continue
+        flagged = any(isinstance(st, ast.Assign) and len(st.targets) == 1 and ast.unparse(st.targets[0]).endswith('.immutable')
+                      and isinstance(st.value, ast.Constant) and st.value.value is True for st in f.node.body)
+        alloc = any(isinstance(x, ast.Call) and ast.unparse(x.func) == 'super().__new__' for x in own_walk(f.node))
+        if name == 'frombuffer' or (flagged and alloc and f.params()[:1] == ['cls']):
+            out[f.key] = f
+    return out
+
+
 def rule_A7(ctx):
     """Ingress: external mutable inputs reach a store only through copying constructors; frombuffer only on a read-only mmap."""
     m = ctx.m
@@ -200,10 +220,11 @@ def rule_A7(ctx):
     fb = m.funcs.get('bitstore:BitStore.frombuffer')
     if fb is None:
         raise AnalysisError('anchor vanished: BitStore.frombuffer')
+    shared = set(sharing_ctors(m)) | {fb.key}
     n_calls = 0
     for n, edges in ctx.callgraph().items():
         for (callee, cs) in edges:
-            if callee[0] != fb.key or not isinstance(cs.node, ast.Call):
+            if callee[0] not in shared or not isinstance(cs.node, ast.Call) or n[0] in shared:
                 continue
             n_calls += 1
             f = m.funcs[n[0]]
@@ -513,7 +534,7 @@ class Ownership:
                 return {('FRESH',)}
             if txt.endswith('BitStore.frombytes'):
                 return {('FRESH',)}
-            if txt.endswith('BitStore.frombuffer'):
+            if txt.endswith('BitStore.frombuffer') or any(txt.endswith('BitStore.' + k.split('.')[-1]) for k in sharing_ctors(self.m)):
                 return {('BUFFER',)}
             if isinstance(e.func, ast.Attribute):
                 rt = fa.expr_type.get(id(e.func.value), ANY)
